@@ -19,6 +19,7 @@ import (
 	"strings"
 
 	crypto "github.com/onflow/crypto"
+	"github.com/onflow/crypto/hash"
 	"github.com/onflow/crypto/zzverif/vsched"
 )
 
@@ -125,6 +126,14 @@ func runProgram(ki int, a, b int, bound, maxExec int) result {
 	solo := []string{ops[a].do(kk.mk()), ops[b].do(kk.mk())}
 	outs := make([]string, 2)
 	pr := []int{a, b}
+	if c01Want != "" {
+		for t, o := range pr {
+			if strings.Contains(ops[o].name, "Verify") && solo[t] != c01Want {
+				res.Violations = append(res.Violations, viol{keyPrefix + ":verdicts-wrong-when-run-alone", ops[o].name + " run alone gives " + solo[t] + ", want " + c01Want, desc, ki, pr, nil, nil})
+				return res
+			}
+		}
+	}
 	mk := func() []func() {
 		sk := kk.mk() // cold: PublicKey() never called on this object
 		outs[0], outs[1] = "", ""
@@ -147,16 +156,16 @@ func runProgram(ki int, a, b int, bound, maxExec int) result {
 			os.Exit(2)
 		}
 		if x.Deadlock {
-			add("publickey-first-use:deadlock", "no enabled thread")
+			add(keyPrefix+":deadlock", "no enabled thread")
 			return
 		}
 		if x.Panic != "" {
-			add("publickey-first-use:panic", "panic: "+x.Panic)
+			add(keyPrefix+":panic", "panic: "+x.Panic)
 			return
 		}
 		for t := 0; t < 2; t++ {
 			if outs[t] != solo[t] {
-				add("publickey-first-use:result-differs-from-solo:"+strings.Fields(kk.name)[0],
+				add(keyPrefix+":result-differs-from-solo:"+strings.Fields(kk.name)[0],
 					fmt.Sprintf("%s on a private key whose public key was being computed for the first time by another goroutine returned a different result than when run alone", ops[pr[t]].name),
 					"concurrent: "+short(outs[t]), "alone:      "+short(solo[t]))
 			}
@@ -178,7 +187,65 @@ func runProgram(ki int, a, b int, bound, maxExec int) result {
 var (
 	replayV viol
 	replayG *viol
+	// C12S_MODE=c01: the same explorer serves C01 ("Verify accepts exactly sk*H(m)") for public keys
+	// obtained from a private key whose cache is being filled concurrently
+	property  = "C12"
+	keyPrefix = "publickey-first-use"
 )
+
+// c01Mode replaces the operation list: every thread takes pk := sk.PublicKey() of the shared cold
+// private key and offers it a fixed candidate list (the valid signature, the identity signature - which an all-zero
+// key accepts); the verdicts must be exactly true,false - the absolute C01 oracle, not only "as when run alone".
+func c01Mode() {
+	property, keyPrefix = "C01", "verify-under-concurrent-first-use"
+	type cands struct{ sigs [][]byte }
+	memo := map[string]*cands{}
+	candsOf := func(sk crypto.PrivateKey) *cands {
+		k := fmt.Sprintf("%x", sk.Encode())
+		if c, ok := memo[k]; ok {
+			return c
+		}
+		twin := must(crypto.DecodePrivateKey(crypto.BLSBLS12381, sk.Encode())) // never the shared object
+		other := must(crypto.GeneratePrivateKey(crypto.BLSBLS12381, seed(41, 32)))
+		h := func() hash.Hasher { return crypto.NewExpandMsgXOFKMAC128("c12s") }
+		valid := must(twin.Sign(msg, h()))
+		// the negation flips the sign bit of the compressed encoding
+		neg := append([]byte{}, valid...)
+		neg[0] ^= 0x20
+		_, _ = neg, other
+		c := &cands{sigs: [][]byte{valid, append([]byte{0xc0}, make([]byte, 47)...)}}
+		memo[k] = c
+		return c
+	}
+	for _, kk := range kinds[:3] {
+		candsOf(kk.mk())
+	}
+	verdicts := func(pk crypto.PublicKey, c *cands) string {
+		var out []string
+		for _, sg := range c.sigs {
+			ok, err := pk.Verify(sg, msg, crypto.NewExpandMsgXOFKMAC128("c12s"))
+			out = append(out, fmt.Sprintf("%v,%v", ok, err))
+		}
+		return strings.Join(out, " ")
+	}
+	ops = []opDef{
+		{"PublicKey().Verify(valid, identity)", true, func(sk crypto.PrivateKey) string {
+			return verdicts(sk.PublicKey(), memo[fmt.Sprintf("%x", sk.Encode())])
+		}},
+		{"PublicKey().Encode()", false, func(sk crypto.PrivateKey) string { return fmt.Sprintf("%x", sk.PublicKey().Encode()) }},
+		{"BLSGeneratePOP(sk)", true, func(sk crypto.PrivateKey) string {
+			s, err := crypto.BLSGeneratePOP(sk)
+			return fmt.Sprintf("%x,%v", []byte(s), err)
+		}},
+		{"PublicKey() twice, Verify under the second", true, func(sk crypto.PrivateKey) string {
+			_ = sk.PublicKey()
+			return verdicts(sk.PublicKey(), memo[fmt.Sprintf("%x", sk.Encode())])
+		}},
+	}
+	c01Want = "true,<nil> false,<nil>"
+}
+
+var c01Want string
 
 func main() {
 	thorough := len(os.Args) > 1 && os.Args[1] == "thorough"
@@ -189,6 +256,9 @@ func main() {
 	}
 	w := bufio.NewWriter(os.Stdout)
 	defer w.Flush()
+	if os.Getenv("C12S_MODE") == "c01" {
+		c01Mode()
+	}
 	if len(os.Args) > 2 && os.Args[1] == "--replay" {
 		var v viol
 		b, err := os.ReadFile(os.Args[2])
@@ -221,7 +291,7 @@ func main() {
 			bad = bad || outs[t] != solo
 		}
 		if bad {
-			fmt.Printf("VIOLATION property=C12 replay=%s\n", os.Args[2])
+			fmt.Printf("VIOLATION property=%s replay=%s\n", property, os.Args[2])
 			os.Exit(1)
 		}
 		return
@@ -308,7 +378,7 @@ func main() {
 		r := runG(replayG.Ops[0], replayG.Ops[1], bound)
 		fmt.Printf("%s: %d schedules, %d violations\n", r.Desc, r.Execs, len(r.Violations))
 		if len(r.Violations) > 0 {
-			fmt.Printf("VIOLATION property=C12 replay=%s\n", os.Args[2])
+			fmt.Printf("VIOLATION property=%s replay=%s\n", property, os.Args[2])
 			os.Exit(1)
 		}
 		return
@@ -322,6 +392,9 @@ func main() {
 	pi := -1
 	for ki, kk := range kinds {
 		bls := strings.HasPrefix(kk.name, "BLS")
+		if !bls && property != "C12" {
+			continue
+		}
 		for a := range ops {
 			for b := a; b < len(ops); b++ {
 				if !bls && (ops[a].blsOnly || ops[b].blsOnly) {
@@ -340,6 +413,9 @@ func main() {
 		}
 	}
 	for a := range gops {
+		if property != "C12" {
+			break
+		}
 		for b := a; b < len(gops); b++ {
 			pi++
 			if pi%shardN != shardK {
